@@ -15,6 +15,8 @@ func init() {
 	register("C19", "Structural clause decided: every append (or map insert) whose base is memory reachable from a conversation is one of a closed table of growth sites, and each site has the structural partner that makes it history-independent: drained on every API return (injections), drained by every emitted data message (disclosure queue), find-or-add per key pair with eviction when the generation is retired (MAC-key and counter histories), in-place filter (eviction itself), replaced-not-extended by encrypted sends (resend queue; extended only by sends waiting for encryption, which the statement allows), the fragment buffer (allowed by the statement). A new growth site, or a removed partner, is reported. Not decided: actual byte sizes; growth hidden inside library objects.",
 		func(a *An) {
 			a.c19Growth()
+			a.c19More()
+			a.c18Resend()
 		})
 }
 
@@ -303,4 +305,53 @@ func (a *An) c19Growth() {
 		}
 	}
 	R.Floor(rule, 8)
+}
+
+// c19More: rules added after seeded changes C19-v1..v3.
+func (a *An) c19More() {
+	R := a.R
+	auth, _ := a.dataAuthFacts()
+	// growth of the per-key-pair histories is driven only by authenticated messages or by our own sends
+	if f := a.MustFn("(*counterHistory).findCounterFor"); f != nil {
+		cnt := map[string]int{}
+		for _, cs := range a.CallSites(f) {
+			caller := a.C.Name(cs.Parent())
+			key := ordinalKey(caller+"|call findCounterFor", cnt)
+			if caller == "(*Conversation).genDataMsgWithFlag" {
+				args := cs.Common().Args
+				ok := a.C.Term(args[1]) == "(Conversation.keys.ourKeyID - 1)" && a.C.Term(args[2]) == "Conversation.keys.theirKeyID"
+				R.Check(ok, "G.growth-auth", key, "on the sending side the counter record is looked up for our own current key ids", a.C.InstrPos(cs), "ids "+a.C.Term(args[1])+", "+a.C.Term(args[2]))
+				continue
+			}
+			a.Gate("G.growth-auth", key, cs, "find-or-add of a counter record with ids taken from a received message", auth...)
+		}
+	}
+	if f := a.MustFn("(*macKeyHistory).addKeys"); f != nil {
+		cnt := map[string]int{}
+		for _, cs := range a.CallSites(f) {
+			a.GateLocal("G.growth-auth", ordinalKey(a.C.Name(cs.Parent())+"|call addKeys", cnt), cs, "adding a MAC key record", "ok:(*keyManagementContext).pickOurKeys", "ok:(*keyManagementContext).pickTheirKey")
+		}
+	}
+	R.Floor("G.growth-auth", 6)
+	a.drainUnconditional("S.drain")
+}
+
+// drainUnconditional: every data message that is generated takes the whole disclosure queue.
+func (a *An) drainUnconditional(rule string) {
+	fn := a.MustFn("(*Conversation).genDataMsgWithFlag")
+	if fn == nil {
+		return
+	}
+	si := statusIndex(fn.Signature)
+	n := 0
+	for _, r := range a.returnsOf(fn) {
+		ev := resolveLocal(r.Results[si])
+		if !isNilConst(ev) {
+			continue
+		}
+		n++
+		a.R.Check(a.F.LocalAt(r).Has("called:(*keyManagementContext).revealMACKeys"), rule, "genDataMsgWithFlag|drain-on-every-message", "every generated data message (whatever its flag or content) drains the disclosure queue", a.C.InstrPos(r),
+			"a data message can be generated without draining the queue of MAC keys to reveal: under traffic that only produces such messages the queue (and the next message that does drain it) grows without bound, and retired keys are not disclosed")
+	}
+	a.R.Check(n >= 1, rule, "genDataMsgWithFlag|success-return", "success return found", a.C.Pos(fn.Pos()), "none")
 }
